@@ -673,3 +673,123 @@ def copy_out_rule(ctx, rid, method_names, base_cls, min_instances=2):
                 r.fail(f.qualname, "partial-copy", f.file, ret.lineno, f"{ci.name}.{mname}", f"stored state `{norm_text(n)}` reaches the returned value as `{norm_text(p)[:60] if p is not None else norm_text(n)}` (not a whole `.copy()`): the caller's object shares arrays with the stored matrix / the cached sparsity pattern")
             else:
                 r.ok(f"{ci.name}.{mname}: whole copies")
+
+
+def group_loop_rule(ctx, rid, scope, min_instances=5):
+    """Meshes may hold several element groups of the main dimension (QUAD4 + TRI3, PRISM boundary = TRI + QUAD).  A loop
+    over the groups that leaves early -- `break`, or `return <value>` from inside the body -- handles the first group(s)
+    only: points lying in a later group are not located, its elements are not assembled / integrated / moved."""
+    repo = ctx.repo
+    r = ctx.rule(rid, "loops over the element groups of a mesh visit every group (no break, no value returned from inside the loop)", min_instances=min_instances)
+
+    def early_exits(body):
+        out = []
+        for st in body:
+            if isinstance(st, ast.Break):
+                out.append(st)
+            elif isinstance(st, ast.Return):
+                if st.value is not None and not (isinstance(st.value, ast.Constant) and st.value.value is None):
+                    out.append(st)
+            elif isinstance(st, (ast.For, ast.While)):
+                # a break inside belongs to the inner loop; a return still leaves the function
+                out += [x for x in early_exits(st.body) + early_exits(st.orelse) if isinstance(x, ast.Return)]
+            elif isinstance(st, ast.If):
+                out += early_exits(st.body) + early_exits(st.orelse)
+            elif isinstance(st, (ast.With, ast.Try)):
+                out += early_exits(st.body)
+                for h in getattr(st, "handlers", []):
+                    out += early_exits(h.body)
+                out += early_exits(getattr(st, "orelse", [])) + early_exits(getattr(st, "finalbody", []))
+        return out
+
+    for f in repo.all_functions():
+        if not scope(f):
+            continue
+        for n in ast.walk(f.node):
+            if isinstance(n, ast.For) and any(k in norm_text(n.iter) for k in ("Get_list_groupElem", "dict_groupElem", "list_groupElem")):
+                r.instance(fn=f.qualname)
+                ex = early_exits(n.body)
+                if ex:
+                    x = ex[0]
+                    r.fail(f.qualname, f"group-loop-exit:{type(x).__name__.lower()}", f.file, x.lineno, f.name, f"`{norm_text(x)[:50]}` leaves the loop over `{norm_text(n.iter)[:50]}` before every element group was visited: on a mesh mixing element types the later groups are skipped")
+                else:
+                    r.ok()
+
+
+def group_loop_leak_rule(ctx, rid, scope, min_instances=5):
+    """A value built per element group inside `for groupElem in <groups>` and used AFTER the loop is the last group's
+    value only: a treatment applied to it there (thickness rescale, storage, conversion) reaches one group of a mixed
+    mesh."""
+    repo = ctx.repo
+    r = ctx.rule(rid, "no per-group value is used after the loop over the element groups (a treatment placed after the loop reaches the last group only)", min_instances=min_instances)
+    for f in repo.all_functions():
+        if not scope(f):
+            continue
+
+        def scan(stmts):
+            for i, st in enumerate(stmts):
+                if isinstance(st, ast.For) and any(k in norm_text(st.iter) for k in ("Get_list_groupElem", "dict_groupElem", "list_groupElem")):
+                    r.instance(fn=f.qualname)
+                    inside = {x.id for b in st.body for x in ast.walk(b) if isinstance(x, ast.Name) and isinstance(x.ctx, ast.Store)}
+                    inside |= {x.id for x in ast.walk(st.target) if isinstance(x, ast.Name)}
+                    before = {x.id for s in stmts[:i] for x in ast.walk(s) if isinstance(x, ast.Name) and isinstance(x.ctx, ast.Store)}
+                    before |= {a.arg for a in f.node.args.args + f.node.args.kwonlyargs}
+                    live = inside - before
+                    leak = None
+                    for s2 in stmts[i + 1:]:
+                        if not live:
+                            break
+                        reads = {x.id for x in ast.walk(s2) if isinstance(x, ast.Name) and isinstance(x.ctx, ast.Load)}
+                        reads |= {x.target.id for x in ast.walk(s2) if isinstance(x, ast.AugAssign) and isinstance(x.target, ast.Name)}
+                        hit = live & reads
+                        if hit:
+                            leak = (sorted(hit)[0], s2)
+                            break
+                        stores = {x.id for x in ast.walk(s2) if isinstance(x, ast.Name) and isinstance(x.ctx, ast.Store)}
+                        live -= stores
+                    if leak:
+                        nm, s2 = leak
+                        r.fail(f.qualname, f"per-group-value-after-loop:{nm}", f.file, s2.lineno, f.name, f"`{nm}` is built inside the loop over `{norm_text(st.iter)[:40]}` and used after it in `{norm_text(s2)[:60]}`: only the last element group is concerned")
+                    else:
+                        r.ok()
+                for attr in ("body", "orelse", "finalbody"):
+                    sub = getattr(st, attr, None)
+                    if isinstance(sub, list) and sub and isinstance(sub[0], ast.stmt):
+                        scan(sub)
+
+        scan(f.node.body)
+
+
+def flag_pair_rule(ctx, rid, scope, min_instances=1):
+    """A mode flag raised for the duration of a call (`self.X = True ... self.X = False`) is lowered on every path that
+    completes: an early return between the two leaves the object in the temporary mode for every later call."""
+    repo = ctx.repo
+    r = ctx.rule(rid, "a flag raised for the duration of a call is lowered again on every completing path", min_instances=min_instances)
+    for f in repo.all_functions():
+        if f.cls is None or not scope(f):
+            continue
+        body = f.node.body
+        firsts = {}
+        for i, st in enumerate(body):
+            if isinstance(st, ast.Assign) and len(st.targets) == 1 and isinstance(st.value, ast.Constant) and isinstance(st.value.value, bool):
+                t = st.targets[0]
+                if isinstance(t, ast.Attribute) and isinstance(t.value, ast.Name) and t.value.id == "self":
+                    firsts.setdefault(t.attr, []).append((i, st.value.value))
+        for attr, occ in firsts.items():
+            if len(occ) < 1:
+                continue
+            i0, v0 = occ[0]
+            # a later store of the opposite constant anywhere after the first one
+            def is_reset(st, attr=attr, v0=v0):
+                if isinstance(st, (ast.If, ast.For, ast.While, ast.With, ast.Try)):
+                    return False
+                return any(isinstance(x, ast.Assign) and isinstance(x.value, ast.Constant) and x.value.value is (not v0) and any(isinstance(t, ast.Attribute) and isinstance(t.value, ast.Name) and t.value.id == "self" and t.attr == attr for t in x.targets) for x in ast.walk(st))
+
+            rest = body[i0 + 1:]
+            if not any(is_reset(x) for st in rest for x in ast.walk(st) if isinstance(x, ast.stmt)):
+                continue  # not a raise / lower pair in this function
+            r.instance(fn=f.qualname)
+            if must_pass(rest, is_reset):
+                r.ok(f"{f.cls.name}.{f.name}: self.{attr} = {v0} ... = {not v0} on every path")
+            else:
+                r.fail(f.qualname, f"flag-not-lowered:{attr.lstrip('_')}", f.file, body[i0].lineno, f"{f.cls.name}.{f.name}", f"`self.{attr} = {v0}` is set for the duration of the call but a path returns before `self.{attr} = {not v0}`: the object stays in the temporary mode, every later use (and every copy) behaves as if the call were still running")
